@@ -85,6 +85,13 @@ def run(ctx: Context) -> None:
     if len(parse_calls) != 1:
         raise AnalysisError(f"anchor vanished: URL parsing call in URL.__init__ ({len(parse_calls)} found)")
     parser = (chain(parse_calls[0].func) or [""])[-1]
+    # what is parsed is the WHOLE url argument after the ASCII / type check (a check per kept component would let non-ASCII text
+    # through in the parts the parse discards: fragment, userinfo)
+    pin = parse_calls[0].args[0] if parse_calls[0].args else None
+    psrc = sorted({norm(a) for a in ([pin] if isinstance(pin, ast.Call) else ctx.prov.expand(pin, uinit, parse_calls[0], depth=1))}) if pin is not None else []
+    rep.ob("C19.R4", "shared|URL.__init__|parse-input", psrc == ["enforce_bytes(url,name='url')"], where(uinit, parse_calls[0]),
+           f"{parser}() is applied to {psrc}" + ("" if psrc == ["enforce_bytes(url,name='url')"] else " - not to the type- and ASCII-checked whole argument `enforce_bytes(url, name='url')`: "
+           "text that the parse throws away (fragment, userinfo) is never checked, so a non-ASCII str URL is accepted"))
     # the local that holds the parse result (whatever it is called)
     pa = parent(parse_calls[0])
     pv = norm(pa.targets[0]) if isinstance(pa, ast.Assign) and len(pa.targets) == 1 and isinstance(pa.targets[0], ast.Name) else "parsed"
